@@ -162,7 +162,7 @@ m("M35_http_no_413_streamed", ["C24"], "searchlite-http/src/lib.rs",
   "    if err.status() == StatusCode::PAYLOAD_TOO_LARGE {\n      return HttpError::body_too_large(err.to_string());\n    }",
   "",
   "streamed oversize JSON bodies answered 400 instead of 413")
-m("M36_commit_marker_before_manifest", ["C01", "C02"], CORE+"api/writer.rs",
+m("M36_commit_marker_before_manifest", ["C02"], CORE+"api/writer.rs",
   "      new_manifest.store(self.inner.storage.as_ref(), &manifest_path)?;\n      self.wal.append_commit()?;\n      self.wal.sync()?;",
   "      self.wal.append_commit()?;\n      self.wal.sync()?;\n      new_manifest.store(self.inner.storage.as_ref(), &manifest_path)?;",
   "commit marker made durable before the manifest is stored")
